@@ -483,13 +483,18 @@ def _run_static(case, sim, out, stats, log):
         name = op["op"]
         before_calls, before_seq = inner_calls[0], sim.seq
         if name == "restatic":
-            r = math.inf if op["r"] is None else op["r"]
+            r_old = r
+            if op["r"] != "same":
+                r = math.inf if op["r"] is None else op["r"]
             st2 = st.make_static(r)
             if st2 is not st:
                 out.append(viol("C15", "static", "make_static-on-static-returns-new-object", ""))
                 st = st2
-            if ages is not None:
-                ages = set(ages) | {0}   # both readings of the documentation are accepted
+            if ages is not None and r != r_old:
+                # the interval changed in the middle of a cycle: both readings of the documentation
+                # are accepted. With the SAME interval there is nothing to read: the interval is K
+                # throughout, so every set is used exactly K times (seeded change C15i).
+                ages = set(ages) | {0}
             log.append(["restatic", op["r"]])
             continue
         if name == "len":
